@@ -6,8 +6,9 @@ COMMON = ("Assumptions common to all checks: mathematical integers (no overflow)
 claim("C01",
       "Proof, for all inputs, of the sequential specification of the in-memory collection's Get/Create/Update/Destroy inside one critical section "
       "(success iff the spec's conditions with check precedence not-found/owner/version/phase, version+1, creation time kept, whole-view frame, failure leaves "
-      "storage and log untouched, write-back), of the error constructors' classes, the conflict-error resource invariant and the Is*Error predicates' panic-freedom.",
-      COMMON + "The step 'one critical section per operation implies linearizability' is cited, not machine-checked. inmem.State/namespaced.State routing, List, "
+      "storage and log untouched, write-back), of the error constructors' classes, the conflict-error resource invariant and the Is*Error predicates' panic-freedom; "
+      "namespaced.State hands every caller the one state instance published for a namespace (also under a first-use race).",
+      COMMON + "The step 'one critical section per operation implies linearizability' is cited, not machine-checked. inmem.State routing, the per-operation routing of namespaced.State, List, "
       "and remote states are not under contract. Environment assumptions: caller-isolation and copy-private (assume_at_acquire).",
       "DESIGN.md §6 C01")
 claim("C02",
@@ -34,7 +35,8 @@ claim("C10",
       "DESIGN.md §6 C10")
 claim("C11",
       "No-panic sweep: every unary server handler (Get/List/Create/Update/Destroy/Teardown/TeardownAndDestroy), ConvertLabelQuery/ConvertIDQuery, mapEvent and "
-      "marshalResource are proved panic-free for every request value (nil sub-messages, empty slices, any enum value).",
+      "marshalResource are proved panic-free for every request value (nil sub-messages, empty slices, any enum value); label-query translation keeps inversion per "
+      "term; the client's Teardown has evaluated all caller options before it chooses between the native call and the Get+Update fallback.",
       COMMON + "Preconditions: request pointer non-nil, repeated message fields hold no nil elements (protobuf decoder). Protobuf codec functions trusted. "
       "Error-class preservation, write-back, sticky fallback and server.Watch are not under contract yet.",
       "DESIGN.md §6 C11")
@@ -52,8 +54,10 @@ claim("C19",
 claim("C04",
       "Proof for the conflict-retrying UpdateWithConflicts against ghost counters maintained by the CoreState interface contracts: an error return means no "
       "successful Update was issued, at most one successful Update per call, an owner or phase conflict returned by Update is never retried into success, "
-      "and the expected-phase check happens on the value just read before anything else (also when the change is a no-op).",
-      COMMON + "Environment as the property states (no concurrent Destroy/re-create). Modify/ModifyWithResult, Add/RemoveFinalizer, Teardown and the safe.* wrappers "
+      "and the expected-phase check happens on the value just read before anything else (also when the change is a no-op); Teardown answers its readiness from "
+      "the latest value it has seen (the one returned by the retrying update, not the stale first read); ModifyWithResult reports a refused Create as an error "
+      "instead of starting over with an already mutated object.",
+      COMMON + "Environment as the property states (no concurrent Destroy/re-create). Modify, Add/RemoveFinalizer, TeardownAndDestroy and the safe.* wrappers "
       "are not under contract yet; the Is*Error classification functions are tied to specification functions by definitional clauses.",
       "DESIGN.md §6 C04")
 claim("C18",
